@@ -68,12 +68,23 @@ theorem saveSig_id (t : Tbl) (s : Sig) : (saveSig t s).id = s.id := by
   cases s with
   | mk e asg body => simp [saveSig, Sig.id, Sig.e, PSig.id, PSig.e]
 
-theorem loadSigs_map {α : Type} (T : Tbl) (g : α → PSig) (h : α → Sig) (l : List α)
-    (hl : ∀ x ∈ l, loadSig T (g x) = .ok (h x)) : loadSigs T (l.map g) = .ok (l.map h) := by
+theorem mem_kidsOwners {self : Id} {p : Id × Owner} : ∀ {kids : List Kid},
+    p ∈ kidsOwners self kids ↔ ∃ k ∈ kids, p ∈ sigOwners (.sig self) k.sig
+  | [] => by simp [kidsOwners]
+  | .mk s pos grp :: r => by
+    simp only [kidsOwners, List.mem_append, mem_kidsOwners (kids := r), List.mem_cons, exists_eq_or_imp, Kid.sig]
+
+theorem loadSigs_map {α : Type} (T : Tbl) (o : Owner) (own : Id → Option Owner) (g : α → PSig) (h : α → Sig)
+    (l : List α)
+    (hl : ∀ x ∈ l, ∀ sn, Agrees sn own → ∃ sn', loadSig T o sn (g x) = .ok (h x, sn') ∧ Agrees sn' own) :
+    ∀ sn, Agrees sn own → ∃ sn', loadSigs T o sn (l.map g) = .ok (l.map h, sn') ∧ Agrees sn' own := by
   induction l with
-  | nil => simp [loadSigs]
+  | nil => intro sn ha; exact ⟨sn, by simp [loadSigs], ha⟩
   | cons x xs ih =>
-    simp only [List.map_cons, loadSigs, hl x (by simp), ih (fun y hy => hl y (by simp [hy]))]
+    intro sn ha
+    obtain ⟨sn1, h1, ha1⟩ := hl x (by simp) sn ha
+    obtain ⟨sn2, h2, ha2⟩ := ih (fun y hy => hl y (by simp [hy])) sn1 ha1
+    exact ⟨sn2, by simp only [List.map_cons, loadSigs, h1, h2], ha2⟩
 
 /-! ## the round trip -/
 
@@ -81,18 +92,27 @@ theorem sigKindOf_kindTag (b : Body) : sigKindOf b.kindTag = b.kindTag := by
   cases b <;> rfl
 
 mutual
-  theorem loadSig_saveSig {t T : Tbl} (hr : TRel t T) :
-      (s : Sig) → sigWf t s = true → sigInRange s = true →
-        loadSig T (saveSig t s) = .ok (normSig t s)
-    | .mk e asg body, hw, hi => by
+  theorem loadSig_saveSig {t T : Tbl} (hr : TRel t T) (own : Id → Option Owner) :
+      (s : Sig) → (o : Owner) → sigWf t s = true → sigInRange s = true →
+        (∀ p ∈ sigOwners o s, own p.1 = some p.2) →
+        ∀ sn, Agrees sn own →
+          ∃ sn', loadSig T o sn (saveSig t s) = .ok (normSig t s, sn') ∧ Agrees sn' own
+    | .mk e asg body, o, hw, hi, ho, sn, ha => by
       simp only [sigWf, Bool.and_eq_true] at hw
       simp only [sigInRange] at hi
-      simp only [saveSig, loadSig, normSig, loadBody_saveBody hr body hw.2 hi,
-        loadAsgs_saveAsgs hr.attr e.id asg hw.1]
-  theorem loadBody_saveBody {t T : Tbl} (hr : TRel t T) :
-      (b : Body) → bodyWf t b = true → bodyInRange b = true →
-        loadBody T (sigKindOf b.kindTag) (saveBody t b) = .ok (normBody t b)
-    | .std ty un, hw, _ => by
+      obtain ⟨h1, ha1⟩ := seeSig_of_agrees ha (ho (e.id, o) (by simp [sigOwners]))
+      obtain ⟨sn', hb, ha'⟩ := loadBody_saveBody hr own body e.id hw.2 hi
+        (fun p hp => ho p (by simp [sigOwners, hp])) _ ha1
+      refine ⟨sn', ?_, ha'⟩
+      simp only [saveSig, loadSig, normSig, h1, hb, loadAsgs_saveAsgs hr.attr e.id asg hw.1]
+  theorem loadBody_saveBody {t T : Tbl} (hr : TRel t T) (own : Id → Option Owner) :
+      (b : Body) → (self : Id) → bodyWf t b = true → bodyInRange b = true →
+        (∀ p ∈ bodyOwners self b, own p.1 = some p.2) →
+        ∀ sn, Agrees sn own →
+          ∃ sn', loadBody T (sigKindOf b.kindTag) self sn (saveBody t b) = .ok (normBody t b, sn') ∧
+            Agrees sn' own
+    | .std ty un, self, hw, _, _, sn, ha => by
+      refine ⟨sn, ?_, ha⟩
       simp only [bodyWf, Bool.and_eq_true] at hw
       have ht := hr.types ty hw.1
       rw [Option.isSome_iff_ne_none] at ht
@@ -104,17 +124,18 @@ mutual
         have hu := hr.units u hw.2.2
         rw [Option.isSome_iff_ne_none] at hu
         simp [saveBody, loadBody, normBody, sigKindOf, Body.kindTag, ht, hw.2.1, hu]
-    | .enm en, hw, _ => by
+    | .enm en, self, hw, _, _, sn, ha => by
+      refine ⟨sn, ?_, ha⟩
       simp only [bodyWf] at hw
       have ht := hr.enums en hw
       rw [Option.isSome_iff_ne_none] at ht
       simp [saveBody, loadBody, normBody, sigKindOf, Body.kindTag, ht]
-    | .mux gc kids, hw, hi => by
+    | .mux gc kids, self, hw, hi, ho, sn, ha => by
       simp only [bodyWf, Bool.and_eq_true, decide_eq_true_eq, nodupB, kidIds_eq] at hw
       simp only [bodyInRange, Bool.and_eq_true] at hi
       obtain ⟨⟨hgc, hkw⟩, hn⟩ := hw
       obtain ⟨hgf, hki⟩ := hi
-      have hkids := loadKids_saveKids hr kids gc hkw hki
+      have hkids := loadKids_saveKids hr own kids gc self hkw hki (by simpa [bodyOwners] using ho)
       rw [kidsWf_iff] at hkw
       rw [kidsInRange_iff] at hki
       have hgc' : (gc == 0) = false := by simpa using Nat.ne_of_gt hgc
@@ -128,30 +149,35 @@ mutual
           .mux gc (dedupLast (fun k => k.sig.id)
             ((muxSignals gc (kids.map fun k => (k.h, k))).map fun k => Kid.mk (normSig t k.sig) k.pos k.grp)) := by
         rw [normBody, normKids_eq, muxSignals_map (fun k : Kid => Kid.mk (normSig t k.sig) k.pos k.grp)]
-      have hl : loadSigs T ((muxSignals gc (kids.map fun k => (k.h, k))).map fun k => saveSig t k.sig) =
-          .ok ((muxSignals gc (kids.map fun k => (k.h, k))).map fun k => normSig t k.sig) := by
-        apply loadSigs_map
-        intro k hk
-        obtain ⟨p, hp, rfl⟩ := mem_muxSignals hk
-        obtain ⟨k', hk', rfl⟩ := List.mem_map.mp hp
-        exact hkids k' hk'
-      have ha := assembleMux_saved gc kids (fun k => normSig t k.sig) (fun k => normSig_id t k.sig) hgc hn
+      obtain ⟨sn', hl, ha'⟩ := loadSigs_map T (.sig self) own (fun k : Kid => saveSig t k.sig)
+        (fun k : Kid => normSig t k.sig) (muxSignals gc (kids.map fun k => (k.h, k)))
+        (by
+          intro k hk
+          obtain ⟨p, hp, rfl⟩ := mem_muxSignals hk
+          obtain ⟨k', hk', rfl⟩ := List.mem_map.mp hp
+          exact hkids k' hk') sn ha
+      refine ⟨sn', ?_, ha'⟩
+      have ha2 := assembleMux_saved gc kids (fun k => normSig t k.sig) (fun k => normSig_id t k.sig) hgc hn
         (fun k hk => (hkw k hk).2) (fun k hk => (hki k hk).2)
-      simp only at ha
+      simp only at ha2
       rw [e1, e2]
-      simp only [loadBody, sigKindOf, Body.kindTag, hgc', hl, ha]
+      simp only [loadBody, sigKindOf, Body.kindTag, hgc', hl, ha2]
       simp
-  theorem loadKids_saveKids {t T : Tbl} (hr : TRel t T) :
-      (ks : List Kid) → (gc : Nat) → kidsWf t gc ks = true → kidsInRange ks = true →
-        ∀ k ∈ ks, loadSig T (saveSig t k.sig) = .ok (normSig t k.sig)
-    | [], _, _, _ => by simp
-    | .mk s pos grp :: r, gc, hw, hi => by
+  theorem loadKids_saveKids {t T : Tbl} (hr : TRel t T) (own : Id → Option Owner) :
+      (ks : List Kid) → (gc : Nat) → (self : Id) → kidsWf t gc ks = true → kidsInRange ks = true →
+        (∀ p ∈ kidsOwners self ks, own p.1 = some p.2) →
+        ∀ k ∈ ks, ∀ sn, Agrees sn own →
+          ∃ sn', loadSig T (.sig self) sn (saveSig t k.sig) = .ok (normSig t k.sig, sn') ∧ Agrees sn' own
+    | [], _, _, _, _, _ => by simp
+    | .mk s pos grp :: r, gc, self, hw, hi, ho => by
       simp only [kidsWf, Bool.and_eq_true] at hw
       simp only [kidsInRange, Bool.and_eq_true] at hi
       intro k hk
       rcases List.mem_cons.mp hk with rfl | hk
-      · exact loadSig_saveSig hr s hw.1.1 hi.1.1
-      · exact loadKids_saveKids hr r gc hw.2 hi.2 k hk
+      · exact loadSig_saveSig hr own s (.sig self) hw.1.1 hi.1.1
+          (fun p hp => ho p (by simp [kidsOwners, hp]))
+      · exact loadKids_saveKids hr own r gc self hw.2 hi.2
+          (fun p hp => ho p (by simp [kidsOwners, hp])) k hk
 end
 
 end Acme.Save
